@@ -630,10 +630,11 @@ def clear_resets(prog, chk, rid, classes=tuple(NODE)):
                             return False
                         targets = {evp} | set((b, 0) for b in f.blocks if b not in lb)
                         return f.find_path(evp, targets, avoid=pos) is None
-                    if not each_iteration(lambda l, r: l == "$R->prev" and r == "this->freeItem") or \
-                       not each_iteration(lambda l, r: l == "this->freeItem" and r == "$R"):
+                    NR = "$R.item" if R and "Iterator" in (R.get("t") or "") else "$R"      # the node: the walked pointer, or the iterator's item
+                    if not each_iteration(lambda l, r: l == NR + "->prev" and r == "this->freeItem") or \
+                       not each_iteration(lambda l, r: l == "this->freeItem" and r == NR):
                         miss.append("recycle of each node (prev = freeItem; freeItem = node)")
-                    if d["hash"] and not each_iteration(lambda l, r: l == "*$R->cell" and r == "0"):
+                    if d["hash"] and not each_iteration(lambda l, r: l == "*" + NR + "->cell" and r == "0"):
                         # alternative: the whole bucket array is zero-filled
                         if not any("Memory::zero(this->data" in f.r(i) for i in q.calls(f)):
                             miss.append("bucket head reset (*node->cell = 0)")
@@ -1118,6 +1119,7 @@ def wrappers(prog, chk, rid, classes=tuple(NODE)):
 
 EQ_FIELDS = {"HashMap": ("key", "value"), "HashSet": ("key",), "List": ("value",)}
 EQ_FORMS = {"key": ("$->key", "$.key()"), "value": ("$->value", "*$")}
+EQ_FORMS_CLS = {"HashSet": {"key": ("$->key", "*$")}}      # a HashSet iterator dereferences to the key
 
 
 def lockstep_equality(prog, chk, rid, classes):
@@ -1197,7 +1199,7 @@ def lockstep_equality(prog, chk, rid, classes):
                                 lt, rt = q.no_casts(f.r(l_)), q.no_casts(f.r(r_))
                                 ta = lambda t_, nm_: re.sub(r"\b%s\b" % re.escape(nm_), "$", t_)
                                 forms = {(ta(lt, na), ta(rt, nb)), (ta(rt, na), ta(lt, nb))}
-                                if not any(x == y and x in EQ_FORMS[fld] for x, y in forms):
+                                if not any(x == y and x in EQ_FORMS_CLS.get(cls, EQ_FORMS)[fld] for x, y in forms):
                                     continue
                                 # the edge on which the two differ must end in `return false` before anything else
                                 differs_true = (op == "!=") == bool(tr)
